@@ -308,6 +308,10 @@ PROPS = {
         ]
     },
     "C09": {
+        "properties": [
+            "C09",
+            "C09_conditions"
+        ],
         "domains": [
             {
                 "name": "c09",
@@ -319,7 +323,10 @@ PROPS = {
         ],
         "trusted": [
             "the storage is MODELLED: it evaluates the rewritten condition literally (substr/=/<>/AND/OR over byte strings); harness/vh/pgeval.go is its twin on the pg_query parse tree of the REAL rewritten statement",
-            "selection of the comparisons to rewrite (FilterSearchableComparisons, table/alias resolution, joins) is covered by correspondence and oracle only, not by proof",
+            "selection of the comparisons to rewrite: the SHAPE test of FilterSearchableComparisons (operand order, casts, literal/placeholder, PostgreSQL and MySQL) is modelled (Model/SearchExt.v `selected`/`hashed`) and under C09_rewritten_condition_equivalent; table/alias resolution, joins, column = column, UPDATE/DELETE/INSERT..SELECT, sub-selects remain oracle/correspondence only (single table `t`)",
+            "casts (PostgreSQL ::type, MySQL CAST/convert(.., binary)) are the identity on bytes in the modelled storage and in both evaluators (harness/vh/pgeval.go, harness/x09sql/myeval.go on the sqlparser AST of the re-parsed rewritten MySQL statement)",
+            "hmac.Processor is modelled with an arbitrary envelope matcher and arbitrary subscribers in between; the replay instantiates them with the models of EnvelopeMatcher / OldContainerDetectorWrapper (Model/EnvelopeOld.v, owned by C01_old); decoder/encoder/token/masking subscribers of the proxies are not in the replayed chain",
+            "HashQuery.OnBind's early return when ParseSearchQueryPlaceholdersSettings reports more placeholders than indexes (only reachable with consistently tokenized columns) is not modelled",
             "SQL literal / bound-parameter decoding (PgQueryDBDataCoder.Decode, pgBoundValue.GetData) is exercised by the harness, not modelled",
             "HMAC-SHA-256 (Lib/Sha256.v) is an executable definition validated against Go's crypto/hmac on every replayed case; no injectivity is assumed, exactness theorems are reductions to an explicit collision"
         ],
